@@ -318,6 +318,16 @@ func init() {
 			}
 			return Scalar{errorsIs(e.st, a, b)}
 		},
+		// aliases(s, t): the slices s and t share their backing array
+		"aliases": func(e *Env, args []ast.Expr) Value {
+			a, ok1 := e.eval(args[0]).(Slice)
+			b, ok2 := e.eval(args[1]).(Slice)
+			if !ok1 || !ok2 {
+				fail("spec: aliases(slice, slice)")
+			}
+			a, b = e.st.canon(a).(Slice), e.st.canon(b).(Slice)
+			return Scalar{And(Neq(a.Back, Int(0)), Eq(a.Back, b.Back))}
+		},
 		// fmtv(x): the text fmt's %v prints for the interface value x (uninterpreted; a string prints as itself)
 		"fmtv": func(e *Env, args []ast.Expr) Value {
 			t := fmtvTerm(e.st, e.eval(args[0]))
